@@ -67,7 +67,7 @@ func openPair(p *pair) (a, b *multiplexing.Stream, err error) {
 // blockAttempt runs one attempt of a blocked-call scenario.
 func blockAttempt(in timingIn) map[string]any {
 	att := map[string]any{"blocked": false, "returned": false, "lat": 0, "err": "", "setup": ""}
-		p := newPair(nil, false, 0, in.W, in.B, in.Bufs, 0)
+	p := newPair(nil, false, 0, in.W, in.B, in.Bufs, 0)
 	defer p.shutdown()
 	var a, b *multiplexing.Stream
 	if in.Call == "read" || in.Call == "write" || in.Call == "writenobuf" {
